@@ -40,7 +40,8 @@ Qed.
 Lemma init_sim c s : hcfg_ok c -> no_marks (h_mem s) ->
   exists bins m, heap_init c s = HOk (mkhstate true bins m) /\
     Rep (heap_end c) m bins [mkchunk (heap_start c) (heap_end c - heap_start c - NODE) false]
-        (bins_add empty_bins (heap_end c - heap_start c - NODE) (heap_start c)).
+        (bins_add empty_bins (heap_end c - heap_start c - NODE) (heap_start c)) /\
+    (heap_end c mod 8 = 0 -> forall w, w mod 8 <> 0 -> mget m w = mget (h_mem s) w).
 Proof.
   intros Hc Hnm. pose proof Hc as (HB & Hfit & Hmin). unfold heap_init, heap_end. unfold heap_start.
   pose proof NODE_eq as HN. pose proof ALIGN_eq as HA. pose proof MIN_range as HMr. rewrite HN, HA in *.
@@ -70,6 +71,9 @@ Proof.
   assert (HLe : length empty_bins = Z.to_nat BIN_COUNT) by (unfold empty_bins; apply repeat_length).
   change (hs + (h_size c - (hs - h_base c) - 32)) with he.
   replace (he - hs - 32) with sz by (unfold sz, he; lia).
+  split.
+  2:{ intros He8 w Hw. unfold m1, m0, set_used. fold he.
+      rewrite !mget_mset_other by (Z.div_mod_to_equations; lia). reflexivity. }
   split.
   - constructor; [|constructor]. cbn [c_addr c_sz]. unfold n_size, m1, m0, set_used, he, hsz. mm. reflexivity.
   - cbn [map c_addr padj_chain]. unfold n_prev_adj, m1, m0, set_used. fold he. unfold he, hsz. split; mm; reflexivity.
@@ -107,11 +111,14 @@ Lemma clear_marks_ok he : forall chunks s m fuel,
   s + NODE + NODE <= two64 \/ chunks = [] -> he + NODE <= two64 -> 0 <= s ->
   (length chunks < fuel)%nat ->
   (forall n, n mod 16 = 0 -> is_used m n = true -> In n (map c_addr chunks) \/ n = he) ->
-  exists m', clear_marks fuel m s he = Some m' /\ no_marks m'.
+  exists m', clear_marks fuel m s he = Some m' /\ no_marks m' /\
+    (he mod 8 = 0 -> aligned_chunks chunks -> forall w, w mod 8 <> 0 -> mget m' w = mget m w).
 Proof.
   pose proof NODE_eq as HN.
   induction chunks as [|x r IH]; intros s m fuel Ht Hs Hb Htop H0 Hf Hmk; destruct fuel as [|k]; cbn [length] in Hf; try lia; cbn [clear_marks].
   - cbn [tiled] in Ht. subst s. rewrite Z.ltb_irrefl. eexists. split; [reflexivity|].
+    split.
+    2:{ intros He8 _ w Hw. rewrite !mget_mset_other by (Z.div_mod_to_equations; lia). reflexivity. }
     intros n Hn. destruct (is_used (mset (mset m (he + 16) 0) (he + 24) 0) n) eqn:E; [|reflexivity]. exfalso.
     apply zero_write_marks in E. destruct E as (E & _ & _). apply zero_write_marks in E. destruct E as (E & N1 & _).
     destruct (Hmk n Hn E) as [[] | ->]. lia.
@@ -120,7 +127,12 @@ Proof.
     pose proof (Forall_inv Hs) as Hx. pose proof (Forall_inv_tail Hs) as Hr. cbn beta in Hx.
     unfold next_adj. rewrite Ea in Hx. rewrite Hx. rewrite (w64_small (s + NODE)) by lia.
     rewrite (w64_small (s + NODE + c_sz x)) by lia.
-    apply IH; try assumption; try lia.
+    match goal with |- exists m', clear_marks k ?mm ?ss he = Some m' /\ _ =>
+      destruct (IH ss mm k) as (m' & Q1 & Q2 & Q3); [exact Ht | | | exact Htop | lia | lia | |
+        exists m'; split; [exact Q1|]; split; [exact Q2|];
+        intros He8 Hal w Hw; unfold aligned_chunks in Hal; pose proof (Forall_inv Hal) as Hxa; cbn beta in Hxa; rewrite Ea in Hxa;
+        rewrite (Q3 He8 (Forall_inv_tail Hal) w Hw); rewrite !mget_mset_other by (Z.div_mod_to_equations; lia); reflexivity]
+    end.
     + rewrite Forall_forall in *. intros y Hy. unfold n_size.
       pose proof (tiled_bounds _ _ _ Ht) as HB. rewrite Forall_forall in HB. destruct (HB y Hy) as (? & _).
       rewrite mget_mset_other by lia. rewrite mget_mset_other by lia. apply Hr. exact Hy.
@@ -166,12 +178,49 @@ Proof.
   rewrite (P2 b b' (Hinc b Hb) Hb' Ea w Hw). apply (P1 b b Hb (Hinc b Hb) eq_refl w). lia.
 Qed.
 
+(* header frames also say that only 8-aligned words are written when the end node is 8-aligned *)
+Definition aligned_writes (c : hcfg) (m m' : mem) : Prop :=
+  heap_end c mod 8 = 0 -> forall w, w mod 8 <> 0 -> mget m' w = mget m w.
+
+Lemma aligned_of_hframe c hs L B live L' B' live' m m' :
+  raw_inv hs (heap_end c) L B live -> raw_inv hs (heap_end c) L' B' live' ->
+  hframe (hdrs2 (heap_end c) L L') m m' -> aligned_writes c m m'.
+Proof.
+  intros Hi Hi' Hf He8 w Hw. apply Hf. intros h k Hh Hk.
+  assert (Hh8 : h mod 16 = 0 \/ h = heap_end c).
+  { destruct Hh as [[Hh | ->] | [Hh | ->]]; auto; left; apply in_map_iff in Hh; destruct Hh as (x & <- & Hx).
+    - pose proof (ri_aligned _ _ _ _ _ Hi) as Ha. unfold aligned_chunks in Ha. rewrite Forall_forall in Ha. apply Ha. exact Hx.
+    - pose proof (ri_aligned _ _ _ _ _ Hi') as Ha. unfold aligned_chunks in Ha. rewrite Forall_forall in Ha. apply Ha. exact Hx. }
+  unfold hk in Hk. destruct Hh8 as [Hh8 | ->]; Z.div_mod_to_equations; lia.
+Qed.
+
+Definition step_frames (c : hcfg) (live live' : list blk) (m m' : mem) : Prop :=
+  payload_frame live live' m m' /\ aligned_writes c m m'.
+
+Lemma sf_refl c live live' m : step_frames c live live' m m.
+Proof. split; [apply payload_refl | intros _ w _; reflexivity]. Qed.
+
+Lemma sf_of_hframe c hs L B live L' B' live' m m' :
+  raw_inv hs (heap_end c) L B live -> raw_inv hs (heap_end c) L' B' live' ->
+  hframe (hdrs2 (heap_end c) L L') m m' -> step_frames c live live' m m'.
+Proof. intros Hi Hi' Hf. split; [exact (payload_of_hframe _ _ _ _ _ _ _ _ _ _ Hi Hi' Hf) | exact (aligned_of_hframe c _ _ _ _ _ _ _ _ _ Hi Hi' Hf)]. Qed.
+
+Lemma sf_two c hs L B live L' B' live' m m' :
+  raw_inv hs (heap_end c) L B live -> raw_inv hs (heap_end c) L' B' live' ->
+  two_frames hs (heap_end c) L live L' m m' -> step_frames c live live' m m'.
+Proof.
+  intros Hi Hi' Hf. split; [exact (payload_two _ _ _ _ _ _ _ _ _ _ Hi Hi' Hf)|].
+  destruct Hf as (L1 & B1 & m1 & live1 & Hi1 & _ & F1 & F2). intros He8 w Hw.
+  rewrite (aligned_of_hframe c _ _ _ _ _ _ _ _ _ Hi1 Hi' F2 He8 w Hw).
+  apply (aligned_of_hframe c _ _ _ _ _ _ _ _ _ Hi Hi1 F1 He8 w Hw).
+Qed.
+
 (* ---------- one step ---------- *)
 Lemma cstep_sim c s sa live o :
   hcfg_ok c -> hinv c sa live -> SR c s sa -> hop_usize o ->
   exists s' sa' live',
     cstep c (s, live) o = Some (s', live') /\ hstep c (sa, live) o = Some (sa', live') /\
-    hinv c sa' live' /\ SR c s' sa' /\ payload_frame live live' (h_mem s) (h_mem s').
+    hinv c sa' live' /\ SR c s' sa' /\ step_frames c live live' (h_mem s) (h_mem s').
 Proof.
   intros Hc Hi (Hfl & Hrep & Hnom) Hd.
   destruct (hstep_ok c sa live o Hc Hi Hd) as (sa' & live' & Hst & Hi').
@@ -188,20 +237,21 @@ Proof.
       inversion Hst; subst sa' live'. eexists. eexists. eexists. split; [reflexivity|]. split; [exact Hst0|].
       split; [exact Hi'|]. split; [apply SR_live; [reflexivity | reflexivity | exact Hrep']|].
       cbn [h_mem]. unfold hinv in Hi'. cbn [ha_initialized ha_chunks ha_bins] in Hi'.
-      exact (payload_of_hframe _ _ _ _ _ _ _ _ _ _ Hi Hi' Hfr').
-    + subst live. destruct (init_sim c s Hc (Hnom eq_refl)) as (bins0 & m0 & Hin & Hrep0). rewrite Hin.
+      exact (sf_of_hframe c _ _ _ _ _ _ _ _ _ Hi Hi' Hfr').
+    + subst live. destruct (init_sim c s Hc (Hnom eq_refl)) as (bins0 & m0 & Hin & Hrep0 & Hal0). rewrite Hin.
       rewrite (heap_init_shape c Hc) in Hst. cbn [ha_chunks ha_bins] in Hst.
       destruct (heap_init_ok c Hc) as (ch0 & b0 & Hin0 & Hr0).
       rewrite (heap_init_shape c Hc) in Hin0. inversion Hin0; subst ch0 b0. clear Hin0.
       cbn [h_bins h_mem].
-      destruct (heap_alloc_raw_sim c _ _ _ _ _ _ [] n Hr0 Hrep0 Hspan Hd) as (bc' & m' & Hca & Hrep' & _).
+      destruct (heap_alloc_raw_sim c _ _ _ _ _ _ [] n Hr0 Hrep0 Hspan Hd) as (bc' & m' & Hca & Hrep' & Hfr').
       rewrite Hca. destruct (ha_alloc_raw _ _ n) as [[ch b] p] eqn:Ea. cbn [fst snd] in *.
       inversion Hst; subst sa' live'. eexists. eexists. eexists. split; [reflexivity|]. split; [exact Hst0|].
       split; [exact Hi'|]. split; [apply SR_live; [reflexivity | reflexivity | exact Hrep']|].
-      intros b0 b0' [].
+      split; [intros b0 b0' []|]. cbn [h_mem]. unfold hinv in Hi'. cbn [ha_initialized ha_chunks ha_bins] in Hi'.
+      intros He8 w Hw. rewrite (aligned_of_hframe c _ _ _ _ _ _ _ _ _ Hr0 Hi' Hfr' He8 w Hw). apply Hal0; assumption.
   - (* dealloc *)
     destruct (nth_error live i) as [b|] eqn:Hn.
-    2:{ inversion Hst; subst. eexists. eexists. eexists. split; [reflexivity|]. split; [exact Hst0|]. split; [exact Hi | split; [exact (conj Hfl (conj Hrep Hnom)) | apply payload_refl]]. }
+    2:{ inversion Hst; subst. eexists. eexists. eexists. split; [reflexivity|]. split; [exact Hst0|]. split; [exact Hi | split; [exact (conj Hfl (conj Hrep Hnom)) | apply sf_refl]]. }
     unfold hinv in Hi. destruct (ha_initialized sa) eqn:Ein; [|subst live; destruct i; discriminate].
     specialize (Hrep eq_refl).
     destruct (heap_dealloc_raw_sim _ _ _ _ _ _ live i b Hi Hrep Hn) as (bc' & m' & ch' & ba' & Had & Hcd & Hrep' & Hfr').
@@ -209,10 +259,10 @@ Proof.
     eexists. eexists. eexists. split; [reflexivity|]. split; [exact Hst0|]. split; [exact Hi'|].
     split; [apply SR_live; [cbn; rewrite Hfl; symmetry; exact Ein | exact Ein | exact Hrep']|].
     cbn [h_mem]. unfold hinv in Hi'. cbn [ha_initialized ha_chunks ha_bins] in Hi'. rewrite Ein in Hi'.
-    exact (payload_of_hframe _ _ _ _ _ _ _ _ _ _ Hi Hi' Hfr').
+    exact (sf_of_hframe c _ _ _ _ _ _ _ _ _ Hi Hi' Hfr').
   - (* realloc *)
     destruct (nth_error live i) as [b|] eqn:Hn.
-    2:{ inversion Hst; subst. eexists. eexists. eexists. split; [reflexivity|]. split; [exact Hst0|]. split; [exact Hi | split; [exact (conj Hfl (conj Hrep Hnom)) | apply payload_refl]]. }
+    2:{ inversion Hst; subst. eexists. eexists. eexists. split; [reflexivity|]. split; [exact Hst0|]. split; [exact Hi | split; [exact (conj Hfl (conj Hrep Hnom)) | apply sf_refl]]. }
     pose proof Hi as Hi0. unfold hinv in Hi. destruct (ha_initialized sa) eqn:Ein; [|subst live; destruct i; discriminate].
     specialize (Hrep eq_refl). cbn [hop_usize] in Hd. unfold usize in Hd.
     unfold hp_realloc, ensure_init. unfold ha_realloc, ha_ensure_init in Hst. rewrite Hfl, Ein in *.
@@ -221,24 +271,24 @@ Proof.
     + (* same size: the states do not change *)
       destruct (n =? 0).
       * inversion Hst; subst sa' live'. eexists. eexists. eexists. split; [reflexivity|]. split; [exact Hst0|]. split; [exact Hi'|].
-        split; [apply SR_live; [rewrite Ein; exact Hfl | exact Ein | exact Hrep] | apply payload_refl].
+        split; [apply SR_live; [rewrite Ein; exact Hfl | exact Ein | exact Hrep] | apply sf_refl].
       * rewrite Hnz in *. inversion Hst; subst sa' live'. eexists. eexists. eexists. split; [reflexivity|]. split; [exact Hst0|].
-        split; [exact Hi'|]. split; [apply SR_live; [rewrite Ein; exact Hfl | exact Ein | exact Hrep] | apply payload_refl].
+        split; [exact Hi'|]. split; [apply SR_live; [rewrite Ein; exact Hfl | exact Ein | exact Hrep] | apply sf_refl].
     + destruct (Z.eq_dec n 0) as [-> | Hn0].
       * destruct (heap_dealloc_raw_sim _ _ _ _ _ _ live i b Hi Hrep Hn) as (bc' & m' & ch' & ba' & Had & Hcd & Hrep' & Hfr').
         unfold heap_realloc_raw. unfold ha_realloc_raw in Hst. rewrite Hnz in *. cbn [Z.eqb] in *. rewrite Hcd. rewrite Had in Hst.
         inversion Hst; subst sa' live'. eexists. eexists. eexists. split; [reflexivity|]. split; [exact Hst0|].
         split; [exact Hi'|]. split; [apply SR_live; [reflexivity | reflexivity | exact Hrep']|].
         cbn [h_mem]. unfold hinv in Hi'. cbn [ha_initialized ha_chunks ha_bins] in Hi'.
-        exact (payload_of_hframe _ _ _ _ _ _ _ _ _ _ Hi Hi' Hfr').
+        exact (sf_of_hframe c _ _ _ _ _ _ _ _ _ Hi Hi' Hfr').
       * destruct (heap_realloc_raw_sim c _ _ _ _ _ _ live i b n Hi Hrep Hspan Hn ltac:(lia)) as (bc' & m' & ch' & ba' & q & Har & Hcr & Hrep' & Hfr').
         rewrite Hcr. rewrite Har in Hst. apply Z.eqb_neq in Hn0. rewrite Hn0 in *.
         destruct (q =? 0); inversion Hst; subst sa' live'; eexists; eexists; eexists;
           (split; [reflexivity|]); (split; [exact Hst0|]); (split; [exact Hi'|]); (split; [apply SR_live; [reflexivity | reflexivity | exact Hrep']|]);
           cbn [h_mem]; unfold hinv in Hi'; cbn [ha_initialized ha_chunks ha_bins] in Hi';
-          exact (payload_two _ _ _ _ _ _ _ _ _ _ Hi Hi' Hfr').
+          exact (sf_two c _ _ _ _ _ _ _ _ _ Hi Hi' Hfr').
   - inversion Hst; subst.
-    assert (Hda : exists s1, hp_deallocall c s = HOk s1 /\ h_initialized s1 = false /\ no_marks (h_mem s1)).
+    assert (Hda : exists s1, hp_deallocall c s = HOk s1 /\ h_initialized s1 = false /\ no_marks (h_mem s1) /\ aligned_writes c (h_mem s) (h_mem s1)).
     { unfold hp_deallocall. rewrite Hfl. unfold hinv in Hi. destruct (ha_initialized sa) eqn:Ein.
       - specialize (Hrep eq_refl). pose proof Hi as [Hpos Htop Ht Hal Hb Hl].
         pose proof (MI_of_inv _ _ _ _ _ _ _ Hi Hrep) as HM. pose proof NODE_eq as HN. pose proof MIN_range.
@@ -246,16 +296,17 @@ Proof.
         { pose proof (chunks_len _ _ _ Ht) as Hcl. unfold heap_fuel. rewrite HN.
           assert (Z.of_nat (length (ha_chunks sa)) <= h_size c / 32) by (apply Z.div_le_lower_bound; lia).
           assert (0 <= h_size c / 32) by lia. lia. }
-        destruct (clear_marks_ok (heap_end c) (ha_chunks sa) (heap_start c) (h_mem s) (heap_fuel c) Ht (rp_sizes _ _ _ _ _ Hrep)) as (m' & Hcm & Hnm'); try lia.
+        destruct (clear_marks_ok (heap_end c) (ha_chunks sa) (heap_start c) (h_mem s) (heap_fuel c) Ht (rp_sizes _ _ _ _ _ Hrep)) as (m' & Hcm & Hnm' & Hal'); try lia.
         { destruct (ha_chunks sa) as [|x r]; [right; reflexivity | left].
           cbn [tiled] in Ht. destruct Ht as (_ & ? & Ht'). apply tiled_le in Ht'. lia. }
         { exact (rp_marks _ _ _ _ _ Hrep). }
-        rewrite Hcm. eexists. split; [reflexivity|]. split; [reflexivity | exact Hnm'].
-      - eexists. split; [reflexivity|]. split; [reflexivity | exact (Hnom eq_refl)]. }
-    destruct Hda as (s1 & Hd1 & Hin1 & Hnm1). rewrite Hd1.
+        rewrite Hcm. eexists. split; [reflexivity|]. split; [reflexivity|]. split; [exact Hnm'|].
+        intros He8. cbn [h_mem]. apply Hal'; assumption.
+      - eexists. split; [reflexivity|]. split; [reflexivity|]. split; [exact (Hnom eq_refl)|]. intros _ w _. reflexivity. }
+    destruct Hda as (s1 & Hd1 & Hin1 & Hnm1 & Hal1). rewrite Hd1.
     eexists. eexists. eexists. split; [reflexivity|]. split; [exact Hst0|]. split; [exact Hi'|].
     split; [split; [exact Hin1|]; split; [cbn; discriminate | intros _; exact Hnm1]|].
-    intros b0 b0' _ [].
+    split; [intros b0 b0' _ [] | exact Hal1].
 Qed.
 
 (* ---------- whole histories ---------- *)
@@ -322,32 +373,28 @@ Proof.
   { rewrite (is_used_flag _ _ _ _ _ _ x HM Hx); [exact Hf|]. intros _. exists (get_bin_index (c_sz x)).
     split; [apply get_bin_index_range|]. destruct Hb as (_ & Hb). destruct (Hb _ (get_bin_index_range (c_sz x))) as [_ Hbin].
     apply Hbin. exists x. auto. }
-  rewrite Hu. cbn [Z.eqb]. reflexivity.
+  rewrite Hu. cbn [andb Z.eqb]. reflexivity.
 Qed.
 
 
-(* "reports an invalid free instead of corrupting itself", memory level, full strength up to ONE
-   address: after any history, dealloc of ANY non-nil pointer that is not a live block panics,
-   except for the pointer just past the end node (heap_end + NODE, i.e. one past the end of the
-   region) when the heap is initialised.  Covers double frees, pointers of a previous generation
-   (before deallocall), pointers into payloads, into absorbed headers, outside the buffer, ... *)
-Theorem heap_mem_invalid_free_reported_proof : forall c ops s live p,
+(* "reports an invalid pointer instead of corrupting itself", memory level, full strength: after any
+   history no non-nil pointer that is not a live block passes get_ptr_node - double frees, pointers
+   of a previous generation (before deallocall), pointers into payloads, into absorbed headers,
+   outside the buffer, and (repair d9328b9) the pointer just past the end node *)
+Lemma heap_mem_invalid_ptr_node_proof : forall c ops s live p,
   hcfg_ok c -> Forall hop_usize ops ->
   crun c (heap_init_state, []) ops = Some (s, live) ->
   0 < p < two64 -> ~ In p (map b_addr live) ->
-  (h_initialized s = true -> p <> heap_end c + NODE) ->
-  hp_dealloc s p = HPanic.
+  get_ptr_node (h_mem s) p = 0.
 Proof.
-  intros c ops s live p Hc Hd Hcr Hp Hnl Hne.
+  intros c ops s live p Hc Hd Hcr Hp Hnl.
   destruct (crun_sim c ops heap_init_state ha_init_state [] Hc (hinv_init c) (SR_init c) Hd) as (s0 & sa & l0 & H1 & H2 & Hi & Hsr).
   rewrite Hcr in H1. inversion H1; subst s0 l0. clear H1.
   pose proof NODE_eq as HN. assert (H64 : two64 = 18446744073709551616) by reflexivity.
-  unfold hp_dealloc, heap_dealloc_raw.
-  assert (E0 : (p =? 0) = false) by (apply Z.eqb_neq; lia). rewrite E0.
-  assert (Eg : get_ptr_node (h_mem s) p = 0); [|rewrite Eg; reflexivity].
   unfold get_ptr_node. rewrite land_mask_mod by apply align16_pow2. rewrite ALIGN_eq.
   destruct (p mod 16 =? 0) eqn:Em; [|reflexivity]. apply Z.eqb_eq in Em. cbn [negb].
-  destruct (is_used (h_mem s) (w64 (p - NODE))) eqn:Eu; [|reflexivity]. exfalso.
+  destruct (is_used (h_mem s) (w64 (p - NODE))) eqn:Eu; [|reflexivity]. cbn [andb].
+  destruct (n_size (h_mem s) (w64 (p - NODE)) =? 0) eqn:Ez; [reflexivity|]. apply Z.eqb_neq in Ez. exfalso.
   assert (Hnal : w64 (p - NODE) mod 16 = 0).
   { unfold w64. rewrite HN, H64. Z.div_mod_to_equations. lia. }
   destruct Hsr as (Hfl & Hrep & Hnom). destruct (ha_initialized sa) eqn:Ein.
@@ -364,25 +411,43 @@ Proof.
         split; [apply get_bin_index_range|]. destruct Hb as (_ & Hb). destruct (Hb _ (get_bin_index_range (c_sz x))) as [_ Hbin].
         apply Hbin. exists x. auto. }
       rewrite Ex, Eu in Hux. destruct Hl as (_ & _ & Hl3). apply Hnl. rewrite Epx. apply Hl3; auto.
-    + apply Hne; [rewrite Hfl; reflexivity|].
-      unfold w64 in Ehe. rewrite HN, H64 in *. Z.div_mod_to_equations. lia.
+    + (* the end node: its size is 0 *)
+      rewrite Ehe in Ez. destruct (rp_end _ _ _ _ _ Hrep) as [E0 _]. contradiction.
   - rewrite (Hnom eq_refl _ Hnal) in Eu. discriminate Eu.
 Qed.
 
-(* the remaining address is a genuine exception: the end node carries the used mark, so the pointer
-   just past it is accepted.  HeapAllocator(200) at an address = 8 mod 16 (end node 16-aligned):
-   after alloc(8), dealloc(base + 200) does not panic (known finding; it merges the end node away) *)
-Theorem heap_mem_invalid_free_reported_refuted_proof : ~ heap_mem_invalid_free_reported_full.
+Theorem heap_mem_invalid_free_reported_proof : forall c ops s live p,
+  hcfg_ok c -> Forall hop_usize ops ->
+  crun c (heap_init_state, []) ops = Some (s, live) ->
+  0 < p < two64 -> ~ In p (map b_addr live) ->
+  hp_dealloc s p = HPanic.
 Proof.
-  intros H. pose (c := mkhcfg 8 200).
-  assert (Hc : hcfg_ok c) by (unfold hcfg_ok, c, two64; cbn; lia).
-  assert (Hd : Forall hop_usize [HAlloc 8]) by (constructor; [cbn; unfold usize, two64; lia | constructor]).
-  destruct (crun c (heap_init_state, []) [HAlloc 8]) as [[s live]|] eqn:E; [|vm_compute in E; discriminate E].
-  specialize (H c [HAlloc 8] s live 208 Hc Hd E).
-  vm_compute in E. inversion E; subst s live. clear E.
-  specialize (H eq_refl ltac:(unfold two64; lia)).
-  assert (Hn : ~ In 208 (map b_addr [mkblk 48 8])) by (cbn; intros [Hx | []]; discriminate Hx).
-  specialize (H Hn). vm_compute in H. discriminate H.
+  intros c ops s live p Hc Hd Hcr Hp Hnl. unfold hp_dealloc, heap_dealloc_raw.
+  assert (E0 : (p =? 0) = false) by (apply Z.eqb_neq; lia). rewrite E0.
+  rewrite (heap_mem_invalid_ptr_node_proof c ops s live p Hc Hd Hcr Hp Hnl). reflexivity.
+Qed.
+
+(* the statement of SpecHeap.v that was refuted twice (stale cookies, end sentinel) *)
+Theorem heap_mem_invalid_free_reported_full_proof : heap_mem_invalid_free_reported_full.
+Proof.
+  intros c ops s live p Hc Hd Hcr _ Hp Hnl. exact (heap_mem_invalid_free_reported_proof c ops s live p Hc Hd Hcr Hp Hnl).
+Qed.
+
+(* realloc runs the same test: on an initialised heap, realloc of such a pointer to a different size panics *)
+Theorem heap_mem_invalid_realloc_reported_proof : forall c ops s live p n old,
+  hcfg_ok c -> Forall hop_usize ops ->
+  crun c (heap_init_state, []) ops = Some (s, live) -> h_initialized s = true ->
+  0 < p < two64 -> ~ In p (map b_addr live) -> n <> old ->
+  hp_realloc c s p n old = HPanic.
+Proof.
+  intros c ops s live p n old Hc Hd Hcr Hin Hp Hnl Hne.
+  pose proof (heap_mem_invalid_ptr_node_proof c ops s live p Hc Hd Hcr Hp Hnl) as Hg.
+  unfold hp_realloc, ensure_init. rewrite Hin.
+  assert (E1 : (n =? old) = false) by (apply Z.eqb_neq; exact Hne). rewrite E1.
+  unfold heap_realloc_raw. assert (E0 : (p =? 0) = false) by (apply Z.eqb_neq; lia). rewrite E0.
+  destruct (n =? 0).
+  - unfold heap_dealloc_raw. rewrite E0, Hg. reflexivity.
+  - rewrite Hg. reflexivity.
 Qed.
 
 (* the allocator's own writes never land in a live payload: after any history, every operation
@@ -399,6 +464,45 @@ Proof.
   intros c ops s live o s' live' Hc Hd Ho Hcr Hst.
   destruct (crun_sim c ops heap_init_state ha_init_state [] Hc (hinv_init c) (SR_init c) Hd) as (s0 & sa & l0 & H1 & H2 & Hi & Hsr).
   rewrite Hcr in H1. inversion H1; subst s0 l0. clear H1.
-  destruct (cstep_sim c s sa live o Hc Hi Hsr Ho) as (s1 & sa1 & l1 & Hs1 & _ & _ & _ & Hp).
+  destruct (cstep_sim c s sa live o Hc Hi Hsr Ho) as (s1 & sa1 & l1 & Hs1 & _ & _ & _ & Hp & _).
   rewrite Hst in Hs1. inversion Hs1; subst s1 l1. exact Hp.
+Qed.
+
+(* ---------- the word-addressed memory is exact when the end node is 8-aligned ----------
+   [mem] maps addresses to 64-bit words; two words at addresses less than 8 apart would overlap in
+   a byte-addressed memory.  When heap_end is a multiple of 8 every word the memory-level model
+   ever writes is 8-aligned, so no two written words overlap: all other addresses keep the initial 0. *)
+Lemma crun_aligned c ops : forall s sa live s' live',
+  hcfg_ok c -> hinv c sa live -> SR c s sa -> Forall hop_usize ops -> heap_end c mod 8 = 0 ->
+  crun c (s, live) ops = Some (s', live') ->
+  forall w, w mod 8 <> 0 -> mget (h_mem s') w = mget (h_mem s) w.
+Proof.
+  induction ops as [|o r IH]; intros s sa live s' live' Hc Hi Hsr Hd He8 Hcr w Hw; cbn [crun] in Hcr.
+  - inversion Hcr; subst. reflexivity.
+  - inversion Hd; subst.
+    destruct (cstep_sim c s sa live o Hc Hi Hsr H1) as (s1 & sa1 & l1 & Hs1 & _ & Hi1 & Hsr1 & _ & Hal).
+    rewrite Hs1 in Hcr. rewrite (IH s1 sa1 l1 s' live' Hc Hi1 Hsr1 H2 He8 Hcr w Hw). apply Hal; assumption.
+Qed.
+
+Theorem heap_mem_writes_aligned_proof : forall c ops s live,
+  hcfg_ok c -> Forall hop_usize ops -> heap_end c mod 8 = 0 ->
+  crun c (heap_init_state, []) ops = Some (s, live) ->
+  forall w, w mod 8 <> 0 -> mget (h_mem s) w = 0.
+Proof.
+  intros c ops s live Hc Hd He8 Hcr w Hw.
+  rewrite (crun_aligned c ops heap_init_state ha_init_state [] s live Hc (hinv_init c) (SR_init c) Hd He8 Hcr w Hw). reflexivity.
+Qed.
+
+(* ---------- the code's own check of the region size is too weak ----------
+   add_memory_region demands room for one node; with room for one node only (HeapAllocator(48) at an
+   address = 8 mod 16) the size of the start node underflows and alloc(100) "succeeds" *)
+Theorem heap_mem_safe_code_check_refuted_proof : ~ heap_mem_safe_code_check_full.
+Proof.
+  intros H. pose (c := mkhcfg 8 48).
+  assert (Hc : hcfg_code_ok c) by (unfold hcfg_code_ok, c, two64; vm_compute; repeat split; intros Hx; discriminate Hx).
+  assert (Hd : Forall hop_usize [HAlloc 100]) by (constructor; [cbn; unfold usize, two64; lia | constructor]).
+  destruct (crun c (heap_init_state, []) [HAlloc 100]) as [[s live]|] eqn:E; [|vm_compute in E; discriminate E].
+  specialize (H c [HAlloc 100] s live Hc Hd E).
+  vm_compute in E. inversion E; subst s live. clear E.
+  destruct H as (Hin & _). apply Forall_inv in Hin. unfold blk_in, c in Hin. cbn in Hin. lia.
 Qed.
